@@ -488,6 +488,77 @@ func ruleEnv(c *Ctx) {
 			c.R.Violate("R-TABLE/env", p.Pos(f.Node()), f.Name, "env "+k, "the client no longer passes this control variable to the plugin", nil)
 		}
 	}
+	// "exactly when", the other direction: with the feature on, no way to a
+	// launch bypasses the variable. The guards above show that the variable is
+	// set only under its feature condition; here every edge on which that
+	// condition is false is cut, the append itself is avoided, and no runner
+	// construction may then be reachable from the entry (error returns do not
+	// reach one). A second condition combined into the same branch - "AutoMTLS,
+	// unless a TLSConfig was supplied" - leaves such a way open.
+	{
+		var launchN []*Node
+		for _, m := range g.Nodes {
+			if m.Ast == nil {
+				continue
+			}
+			for _, call := range callsIn(m.Ast) {
+				t := info.TypeOf(call)
+				if t == nil {
+					continue
+				}
+				if tup, isT := t.(*types.Tuple); isT && tup.Len() == 2 && strings.HasSuffix(tup.At(0).Type().String(), "/runner.Runner") {
+					launchN = append(launchN, m)
+				} else if strings.HasSuffix(t.String(), "cmdrunner.CmdRunner") {
+					launchN = append(launchN, m)
+				}
+			}
+		}
+		for _, en := range entries {
+			exp, known := want[en.key]
+			if !known || len(exp) != 1 || len(launchN) == 0 {
+				continue
+			}
+			cond := exp[0] // e.g. ClientConfig.AutoMTLS=true
+			enNode := en.node
+			cutOff := func(e *Edge) bool {
+				name, val, ok := p.condName(info, e)
+				if !ok {
+					return false
+				}
+				return fmt.Sprintf("%s=%v", name, !val) == cond
+			}
+			seen := g.Reach([]*Node{g.Entry}, func(x *Node) bool { return x == enNode }, cutOff)
+			construct := "env " + en.key + " whenever its feature is on"
+			var hit *Node
+			for _, ln := range launchN {
+				if _, r := seen[ln]; r && ln != enNode {
+					hit = ln
+				}
+			}
+			// only decisive when the launch is conditional on nothing else that
+			// also guards the entry (RunnerFunc entries sit on the RunnerFunc arm
+			// together with their launch): the entry must be able to reach a launch
+			after := g.ReachAfter(enNode, nil, nil)
+			reachesLaunch := false
+			for _, ln := range launchN {
+				if _, r := after[ln]; r {
+					reachesLaunch = true
+				}
+			}
+			if !reachesLaunch {
+				continue
+			}
+			if hit != nil {
+				// a launch the entry can never reach (the other launch method) is not a bypass
+				if _, r := after[hit]; !r {
+					continue
+				}
+				c.R.Violate("R-TABLE/env", p.Pos(en.call), f.Name, construct, "with {"+cond+"} there is a way from the entry of Start to the launch at "+p.Pos(hit.Ast)+" that does not pass this append: another condition decides as well, so the plugin can be launched with the feature requested and the variable missing (for PLUGIN_CLIENT_CERT: it serves plaintext while the host dials TLS, or the reverse)", p.PathTo(seen, hit))
+			} else {
+				c.R.Hold("R-TABLE/env", p.Pos(en.call), f.Name, construct, "with the feature condition assumed true no launch is reachable without the append", true)
+			}
+		}
+	}
 	// host environment: inherited exactly when !SkipHostEnv, and before every control variable
 	if hostNode == nil {
 		c.R.Violate("R-TABLE/env", p.Pos(f.Node()), f.Name, "host environment", "the host environment is never appended to cmd.Env", nil)
